@@ -19,6 +19,7 @@ import glob
 import json
 import os
 import random
+import re
 
 import c03_loggen
 import shutil
@@ -596,6 +597,55 @@ def check_models(ck, cases, scan_cases, prefix="c03"):
     return accepted, rejected, mismatched, coq_fail, scan_bad
 
 
+def check_tpstate(ck):
+    """The translated TopicPartitionState methods (gen/TpStateGen.v) against the real class on random operation
+    sequences (state after every operation, or the AssertionError)."""
+    from common import parse_eval_outputs, run_impl
+    rng = random.Random(ck.seed * 31 + 77)
+    ops = ["await_reset", "consumed_to", "reset_to", "seek", "pause", "resume"]
+    seqs = []
+    for _ in range(ck.n(300, 3000)):
+        seq = []
+        for _ in range(rng.randrange(1, 9)):
+            o = rng.choice(ops)
+            seq.append([o] if o in ("pause", "resume") else [o, rng.choice([0, 1, 2, 7, 40, 2 ** 40])])
+        seqs.append(seq)
+    real = run_impl("c03_tps_impl.py", {"seqs": seqs}, env={"AIOKAFKA_NO_EXTENSIONS": "1"})["out"]
+    body = ["Import TpStateGen.",
+            "Definition show (t : tps) := (t_position t, t_reset t, t_status t, t_paused t).",
+            "Fixpoint runops (t : tps) (l : list (tps -> option tps)) : list (option (option Z * option Z * Z * bool)) :=",
+            "  match l with [] => [] | f :: r => match f t with Some t' => Some (show t') :: runops t' r | None => [None] end end."]
+    for seq in seqs:
+        fs = "; ".join(f"(fun t => {o[0]}_py t{(' (' + str(o[1]) + ')') if len(o) > 1 else ''})" for o in seq)
+        body.append(f"Eval vm_compute in runops tps_init [{fs}].")
+    ok, out = ck.coq_eval("c03_tps", ["C03_TpState", "TpStateGen"], "\n".join(body) + "\n")
+    vals = parse_eval_outputs(out) if ok else []
+    bad = []
+    if ok and len(vals) == len(seqs):
+        for seq, r, v in zip(seqs, real, vals):
+            exp = []
+            for x in r:
+                if x == "SKIP":
+                    break
+                if x == "ASSERT":
+                    exp.append("None")
+                    break
+                pos, rs, st, pa = x
+                f = lambda z: "None" if z is None else f"Some {z}"      # noqa: E731
+                exp.append(f"Some ({f(pos)}, {f(rs)}, {st}, {'true' if pa else 'false'})")
+            got = re.sub(r"%Z|\s+", "", str(v))
+            want = re.sub(r"\s+", "", "[" + "; ".join(exp) + "]")
+            if got.replace("(", "").replace(")", "") != want.replace("(", "").replace(")", ""):
+                bad.append({"ops": seq, "real": r, "coq": str(v)})
+            ck.count(key=("tps", json.dumps(seq)), nontrivial=len(seq) > 2)
+    ck.obligation("correspondence:translated-TopicPartitionState-methods-vs-real-class",
+                  ok and len(vals) == len(seqs) and not bad,
+                  f"{len(seqs)} sequences; " + (json.dumps(bad[0])[:300] if bad else (out[-200:] if not ok else "all agree")))
+    for b in bad[:3]:
+        ck.violation("TopicPartitionState method disagrees with its translation (translator or model fault unless the "
+                     "property monitors also fail)", b, signature="tps-differential", no_input=True)
+
+
 def collect(ck, scs, results, hist):
     cases, scan_cases = [], []
     nbad = 0
@@ -836,10 +886,11 @@ def run(ck: Check):
                       "delivered; distinct by (projected trace, log)")
     import time as _t
     t0 = _t.time()
-    ck.regenerate(["FetchDispatch"])
+    ck.regenerate(["FetchDispatch", "TpStateGen"])
     ok_p, _ = ck.coq_props("C03")
     ck.log(f"proofs ok={ok_p} ({_t.time() - t0:.0f}s)")
     check_fetch_dispatch(ck)
+    check_tpstate(ck)
 
     rng = random.Random(ck.seed * 7919 + 3)
     n = ck.n(200, 4000)
